@@ -367,6 +367,8 @@ pub struct World<'p, 'c, 'cc, V: SimVdaf<VK>, A: Adapter<V>, const VK: usize> {
     shard_refused: Vec<Option<String>>,
     shards: Vec<Option<(Vec<u8>, Vec<Vec<u8>>)>>,
     byz_labels: Vec<Vec<ByzLabel>>,
+    /// bytes of the largest honest message of this instance (what the decoding parameters imply)
+    pimplied: usize,
     n: usize,
 }
 
@@ -415,6 +417,7 @@ impl<'p, 'c, 'cc, V: SimVdaf<VK>, A: Adapter<V>, const VK: usize> World<'p, 'c, 
             shard_refused: Vec::new(),
             shards: Vec::new(),
             byz_labels: Vec::new(),
+            pimplied: 256,
             n,
         })
     }
@@ -591,6 +594,7 @@ impl<'p, 'c, 'cc, V: SimVdaf<VK>, A: Adapter<V>, const VK: usize> World<'p, 'c, 
             self.ctx.trace.str("shard").u64(ri as u64);
             match r {
                 Ok((mut public, mut inputs)) => {
+                    self.pimplied = self.pimplied.max(256 + public.len().max(inputs.iter().map(|i| i.len()).max().unwrap_or(0)));
                     self.shards.push(Some((public.clone(), inputs.clone())));
                     if !rep.byz.is_empty() {
                         let labels = self.ad.byz_rewrite(self.vdaf, &self.plan.ctx.0, &nonce, &rep.meas, &mut public, &mut inputs, &rep.byz, &self.plan.aps);
@@ -643,8 +647,9 @@ impl<'p, 'c, 'cc, V: SimVdaf<VK>, A: Adapter<V>, const VK: usize> World<'p, 'c, 
         let (public_b, input_b) = self.nodes[j].reports.get(&rep).cloned().ok_or("no report")?;
         let vdaf = self.vdaf;
         let id = self.node_id(j);
-        let public = mon_decode(self.ctx, "PublicShare", &public_b, 64 * self.n, |b| V::PublicShare::get_decoded_with_param(vdaf, b), |v| v.get_encoded(), |v| v.encoded_len()).ok_or("public share undecodable")?;
-        let psize = public_b.len() + input_b.len() + 4096;
+        let public = mon_decode(self.ctx, "PublicShare", &public_b, self.pimplied, |b| V::PublicShare::get_decoded_with_param(vdaf, b), |v| v.get_encoded(), |v| v.encoded_len()).ok_or("public share undecodable")?;
+        // size implied by the instance (decoding parameter), measured on the honest report
+        let psize = self.pimplied;
         let input = mon_decode(self.ctx, "InputShare", &input_b, psize, |b| V::InputShare::get_decoded_with_param(&(vdaf, id), b), |v| v.get_encoded(), |v| v.encoded_len()).ok_or("input share undecodable")?;
         let ctxb = self.node_ctx(j);
         let key = self.node_vk(j);
@@ -744,7 +749,7 @@ impl<'p, 'c, 'cc, V: SimVdaf<VK>, A: Adapter<V>, const VK: usize> World<'p, 'c, 
             }
         } else {
             self.ctx.probe("restart_resume");
-            let st = mon_decode(self.ctx, "VerifyState", &sbytes, sbytes.len() + 4096, |b| vdaf.dec_state(id, b), |v| V::enc_state(v), |v| V::state_len_hint(v));
+            let st = mon_decode(self.ctx, "VerifyState", &sbytes, self.pimplied, |b| vdaf.dec_state(id, b), |v| V::enc_state(v), |v| V::state_len_hint(v));
             if st.is_none() && !corrupted {
                 self.ctx.fail(Violation::new("C07.roundtrip", "VerifyState|restart", format!("stored verify state of aggregator {j} does not decode after restart")));
             }
@@ -770,7 +775,7 @@ impl<'p, 'c, 'cc, V: SimVdaf<VK>, A: Adapter<V>, const VK: usize> World<'p, 'c, 
         };
         let mut dec = Vec::new();
         for (_, b, _) in &shares {
-            let d = mon_decode(self.ctx, "VerifierShare", b, b.len() + 4096, |x| V::VerifierShare::get_decoded_with_param(&st0, x), |v| v.get_encoded(), |v| v.encoded_len());
+            let d = mon_decode(self.ctx, "VerifierShare", b, self.pimplied, |x| V::VerifierShare::get_decoded_with_param(&st0, x), |v| v.get_encoded(), |v| v.encoded_len());
             match d {
                 Some(s) => dec.push(s),
                 None => {
@@ -804,7 +809,7 @@ impl<'p, 'c, 'cc, V: SimVdaf<VK>, A: Adapter<V>, const VK: usize> World<'p, 'c, 
                 }
                 let Some(mb) = mon_encode(self.ctx, "VerifierMessage", &msg) else { return };
                 // M2 round trip with Eq
-                if let Some(back) = mon_decode(self.ctx, "VerifierMessage", &mb, mb.len() + 4096, |x| V::VerifierMessage::get_decoded_with_param(&st0, x), |v| v.get_encoded(), |v| v.encoded_len()) {
+                if let Some(back) = mon_decode(self.ctx, "VerifierMessage", &mb, self.pimplied, |x| V::VerifierMessage::get_decoded_with_param(&st0, x), |v| v.get_encoded(), |v| v.encoded_len()) {
                     if back != msg {
                         self.ctx.fail(Violation::new("C07.roundtrip", "VerifierMessage|roundtrip", "verifier message does not decode to an equal value"));
                     }
@@ -874,7 +879,7 @@ impl<'p, 'c, 'cc, V: SimVdaf<VK>, A: Adapter<V>, const VK: usize> World<'p, 'c, 
                     return;
                 };
                 let b = &env.parts[0];
-                let msg = mon_decode(self.ctx, "VerifierMessage", b, b.len() + 4096, |x| V::VerifierMessage::get_decoded_with_param(&state, x), |v| v.get_encoded(), |v| v.encoded_len());
+                let msg = mon_decode(self.ctx, "VerifierMessage", b, self.pimplied, |x| V::VerifierMessage::get_decoded_with_param(&state, x), |v| v.get_encoded(), |v| v.encoded_len());
                 let Some(msg) = msg else {
                     if let Some(job) = self.nodes[j].jobs.get_mut(&(env.rep, env.ap)) {
                         job.end = JobEnd::Failed("verifier message undecodable".into());
@@ -911,7 +916,7 @@ impl<'p, 'c, 'cc, V: SimVdaf<VK>, A: Adapter<V>, const VK: usize> World<'p, 'c, 
                                 self.ctx.fail(Violation::new("C07.len", "VerifyState|len", format!("VerifyState: encoded_len() = {h} but encoding has {} bytes", sb.len())));
                             }
                         }
-                        match mon_decode(self.ctx, "VerifyState", &sb, sb.len() + 4096, |x| vdaf.dec_state(id, x), |v| V::enc_state(v), |v| V::state_len_hint(v)) {
+                        match mon_decode(self.ctx, "VerifyState", &sb, self.pimplied, |x| vdaf.dec_state(id, x), |v| V::enc_state(v), |v| V::state_len_hint(v)) {
                             Some(b2) => {
                                 if b2 != st {
                                     self.ctx.fail(Violation::new("C07.roundtrip", "VerifyState|roundtrip", "round>0 verify state does not decode to an equal value"));
@@ -932,7 +937,7 @@ impl<'p, 'c, 'cc, V: SimVdaf<VK>, A: Adapter<V>, const VK: usize> World<'p, 'c, 
                     Ok(Ok(VerifyTransition::Finish(out))) => {
                         let Some(ob) = mon_encode(self.ctx, "OutputShare", &out) else { return };
                         let apv = &self.aps[env.ap as usize];
-                        let back = mon_decode(self.ctx, "OutputShare", &ob, ob.len() + 4096, |x| V::OutputShare::get_decoded_with_param(&(vdaf, apv), x), |v| v.get_encoded(), |v| v.encoded_len());
+                        let back = mon_decode(self.ctx, "OutputShare", &ob, self.pimplied, |x| V::OutputShare::get_decoded_with_param(&(vdaf, apv), x), |v| v.get_encoded(), |v| v.encoded_len());
                         if back.is_none() {
                             self.ctx.fail(Violation::new("C07.roundtrip", "OutputShare|undecodable", "output share does not decode from its own encoding"));
                         }
@@ -1054,7 +1059,7 @@ impl<'p, 'c, 'cc, V: SimVdaf<VK>, A: Adapter<V>, const VK: usize> World<'p, 'c, 
                             }
                         }
                         let b = &b;
-                        match mon_decode(self.ctx, "OutputShare", b, b.len() + 4096, |x| V::OutputShare::get_decoded_with_param(&(vdaf, &apv), x), |v| v.get_encoded(), |v| v.encoded_len()) {
+                        match mon_decode(self.ctx, "OutputShare", b, self.pimplied, |x| V::OutputShare::get_decoded_with_param(&(vdaf, &apv), x), |v| v.get_encoded(), |v| v.encoded_len()) {
                             Some(o) => outs.push(o),
                             None => ok = false,
                         }
@@ -1156,7 +1161,7 @@ impl<'p, 'c, 'cc, V: SimVdaf<VK>, A: Adapter<V>, const VK: usize> World<'p, 'c, 
                     self.refusal_checks(ap as usize, &sched, &sched_b, &outs);
                 }
                 // aggregate share crosses the wire
-                let back = mon_decode(self.ctx, "AggregateShare", &sched_b, sched_b.len() + 4096, |x| V::AggregateShare::get_decoded_with_param(&(vdaf, &apv), x), |v| v.get_encoded(), |v| v.encoded_len());
+                let back = mon_decode(self.ctx, "AggregateShare", &sched_b, self.pimplied, |x| V::AggregateShare::get_decoded_with_param(&(vdaf, &apv), x), |v| v.get_encoded(), |v| v.encoded_len());
                 if back.is_none() {
                     self.ctx.fail(Violation::new("C07.roundtrip", "AggregateShare|undecodable", "aggregate share does not decode from its own encoding"));
                     ok = false;
@@ -1186,7 +1191,7 @@ impl<'p, 'c, 'cc, V: SimVdaf<VK>, A: Adapter<V>, const VK: usize> World<'p, 'c, 
                     }
                 }
                 let b = &b;
-                if let Some(s) = mon_decode(self.ctx, "AggregateShare", b, b.len() + 4096, |x| V::AggregateShare::get_decoded_with_param(&(vdaf, &apv), x), |v| v.get_encoded(), |v| v.encoded_len()) {
+                if let Some(s) = mon_decode(self.ctx, "AggregateShare", b, self.pimplied, |x| V::AggregateShare::get_decoded_with_param(&(vdaf, &apv), x), |v| v.get_encoded(), |v| v.encoded_len()) {
                     dec.push(s);
                 }
             }
